@@ -18,6 +18,11 @@ import (
 
 // transpile several files with ONE parse state (pkg_all.foi first), like `fc pkg_all.foi a.fo b.fo`
 func vTranspileFiles(srcs []string) (outs []string, err string) {
+	return vTranspileFilesOpt(srcs, true)
+}
+
+// the same without pkg_all.foi (programs that use no library package)
+func vTranspileFilesOpt(srcs []string, withFoi bool) (outs []string, err string) {
 	defer func() {
 		if r := recover(); r != nil {
 			err = fmt.Sprint(r)
@@ -27,8 +32,10 @@ func vTranspileFiles(srcs []string) (outs []string, err string) {
 		return nil, e
 	}
 	resetUniqueTmpCounter()
-	ps := initParse(vFoiSrc)
-	ps, _ = parseAll(ps)
+	ps := initParse("")
+	if withFoi {
+		ps = vPkgState()
+	}
 	for _, s := range srcs {
 		ps = psSetNewSrc(s, ps)
 		var stmts []RootStmt
@@ -114,7 +121,161 @@ func c07Compare(kind string, base, other map[string]string, only func(string) bo
 	return true
 }
 
+// ---- scoping units: declarations whose BOUND names (type parameters, type names declared inside a
+// package_info block) are drawn from the same small pool as the names of user types.  A unit never
+// references another unit, so every arrangement must leave each unit's Go unchanged.
+type c07Unit struct {
+	src   string
+	decls []string // Go declarations it owns ("type X", "func f")
+	after int      // index of the unit this one must follow (its only reference), or -1
+}
+
+var c07Pool = []string{"T", "U", "V", "K", "S", "Dict", "Buffer", "Item"}
+
+func c07Units(g *ggen, i int) []c07Unit {
+	var us []c07Unit
+	perm := g.r.Perm(len(c07Pool))
+	nUser := 1 + g.r.Intn(2)
+	for j := 0; j < nUser; j++ {
+		n := c07Pool[perm[j]]
+		id := fmt.Sprintf("%d_%d", i, j)
+		us = append(us, c07Unit{
+			src:   fmt.Sprintf("type %s = {X%s: int; Y%s: int}\n\n", n, id, id),
+			decls: []string{"type " + n}, after: -1,
+		})
+		// the use of the type is a separate unit: other declarations may stand between the two
+		us = append(us, c07Unit{
+			src:   fmt.Sprintf("let norm%s (v:%s) =\n  v.X%s + v.Y%s\n\n", id, n, id, id),
+			decls: []string{"func norm" + id}, after: len(us) - 1,
+		})
+	}
+	pick := func() string { return c07Pool[g.r.Intn(len(c07Pool))] }
+	nOther := 1 + g.r.Intn(3)
+	for j := 0; j < nOther; j++ {
+		id := fmt.Sprintf("%d_%d", i, j)
+		switch g.r.Intn(3) {
+		case 0: // generic record
+			p1 := pick()
+			p2 := pick()
+			for p2 == p1 {
+				p2 = pick()
+			}
+			us = append(us, c07Unit{
+				src:   fmt.Sprintf("type Entry%s<%s, %s> = {Key%s: %s; Val%s: %s}\n\nlet mkEntry%s (a:int) (b:string) =\n  {Key%s=a; Val%s=b}\n\n", id, p1, p2, id, p1, id, p2, id, id, id),
+				decls: []string{"type Entry" + id, "func mkEntry" + id}, after: -1,
+			})
+		case 1: // generic union
+			p1 := pick()
+			us = append(us, c07Unit{
+				src:   fmt.Sprintf("type Opt%s<%s> =\n  | Som%s of %s\n  | Non%s\n\nlet mkOpt%s (a:int) =\n  Som%s a\n\n", id, p1, id, p1, id, id, id),
+				decls: []string{"type Opt" + id, "type Opt" + id + "_Som" + id, "type Opt" + id + "_Non" + id, "func mkOpt" + id, "func New_Opt" + id + "_Som" + id, "func New_Opt" + id + "_Non" + id}, after: -1,
+			})
+		default: // package_info declaring a type name of the pool
+			p1 := pick()
+			us = append(us, c07Unit{
+				src:   fmt.Sprintf("package_info ext%s =\n  type %s\n  let Mk%s: ()->%s\n  let Use%s: %s->int\n\nlet useExt%s () =\n  ext%s.Use%s (ext%s.Mk%s ())\n\n", id, p1, id, p1, id, p1, id, id, id, id, id),
+				decls: []string{"func useExt" + id}, after: -1,
+			})
+		}
+	}
+	return us
+}
+
+func c07Scoping(g *ggen, i int) {
+	us := c07Units(g, i)
+	head := "package main\n\n"
+	render := func(order []int) string {
+		var sb strings.Builder
+		sb.WriteString(head)
+		for _, k := range order {
+			sb.WriteString(us[k].src)
+		}
+		return sb.String()
+	}
+	owner := map[string]int{}
+	for k, u := range us {
+		for _, d := range u.decls {
+			owner[d] = k
+		}
+	}
+	// reference: every unit translated ALONE
+	alone := map[string]string{}
+	for k := range us {
+		minimal := []int{k}
+		if us[k].after >= 0 {
+			minimal = []int{us[k].after, k}
+		}
+		o, e := vTranspileFilesOpt([]string{render(minimal)}, false)
+		if e != "" {
+			vViolation(map[string]any{"kind": "fc rejected a valid program", "error": e, "program": render(minimal)})
+			return
+		}
+		for d, txt := range c07Decls(o[0]) {
+			if _, ok := owner[d]; ok {
+				alone[d] = txt
+			}
+		}
+	}
+	vstat("scoping.programs")
+	for v := 0; v < 4; v++ {
+		order := g.r.Perm(len(us))
+		// a unit follows the unit it refers to
+		for changed := true; changed; {
+			changed = false
+			pos := map[int]int{}
+			for p, k := range order {
+				pos[k] = p
+			}
+			for k, u := range us {
+				if u.after >= 0 && pos[u.after] > pos[k] {
+					order[pos[u.after]], order[pos[k]] = order[pos[k]], order[pos[u.after]]
+					changed = true
+					break
+				}
+			}
+		}
+		var srcs []string
+		desc := ""
+		if v == 3 && len(order) > 1 {
+			// cut into two files
+			cut := 1 + g.r.Intn(len(order)-1)
+			srcs = []string{render(order[:cut]), render(order[cut:])}
+			desc = "files"
+		} else {
+			srcs = []string{render(order)}
+			desc = "one file"
+		}
+		outs, e := vTranspileFilesOpt(srcs, v == 2)
+		if e != "" {
+			vViolation(map[string]any{"kind": "an arrangement of independent definitions is rejected although each is accepted alone", "error": e, "arrangement": desc, "files": srcs})
+			continue
+		}
+		got := map[string]string{}
+		for _, o := range outs {
+			for d, txt := range c07Decls(o) {
+				got[d] = txt
+			}
+		}
+		keys := make([]string, 0, len(alone))
+		for d := range alone {
+			keys = append(keys, d)
+		}
+		sort.Strings(keys)
+		for _, d := range keys {
+			if got[d] != alone[d] {
+				vViolation(map[string]any{"kind": "a definition's Go depends on unrelated definitions around it (bound names of other declarations leak)", "declaration": d,
+					"alone_go": alone[d], "arranged_go": got[d], "arrangement": desc, "files": srcs})
+				break
+			}
+		}
+		vstat("scoping.variant")
+	}
+}
+
 func vC07(seed int64, count int, extra []string) {
+	for i := 0; i < count*4; i++ {
+		c07Scoping(newGen(seed*7000003+int64(i)), i)
+	}
 	head := gPrelude + gHelperSrc()
 	for i := 0; i < count; i++ {
 		g := newGen(seed*9000011 + int64(i))
